@@ -14,6 +14,9 @@ Ties
                  dyadic fractions), vs Lean `generateBEM` (identity, fraction and carried attributes
                  of every simulated archetype; totals are doubles and are checked by the oracle).
   S  setters     the `bld` setter and the six override setters, accept/reject, vs Lean.
+  X  circumstances  (circumstance_ties; helpers in harness/u2_util.py) the simulated stock / the refusal must not
+                 depend on observers (repr / str / ToString at every stage), DEBUG logging, `python -O`, the command
+                 line, other models of the process, or on what the caller does with the dictionary / list he handed in.
 Oracles (the properties themselves, evaluated on the implementation's results, independent of
 the Lean model) and a split-stock 1-day simulation complete the check.
 """
@@ -1420,6 +1423,363 @@ def era_schedule_runs(chk, plain):
                'names give bit-identical hourly records' % nsim, mismatches=nbad, branches=branches)
 
 
+# ------------------------------------------------------------------------------- circumstances (fourth round)
+def circumstance_members(quick):
+    """(label, model description for harness/u2_util.new_from_spec, realisable?)"""
+    lab = [{'type': 'labtower', 'era': 'new', 'src': [3, 2, 0], 'bem': {'building.heateff': 0.7, 'roof.albedo': 0.55},
+            'sch': {'q_elec': 60.0, 'cool': {'const': 21.0}}}]
+    doe = [{'type': 'largeoffice', 'era': 'pst80', 'src': [3, 1, 0], 'bem': {'wall.albedo': 0.35},
+            'sch': {'q_elec': 43.04, 'cool': {'const': 18.0}}}]
+
+    def mk(bld, zone, customs=None, extra=()):
+        return {'attrs': [['nday', 1], ['dtsim', 300], ['bld', bld], ['zone', zone]] + list(extra), 'customs': customs}
+    mem = [
+        ('two DOE rows, smaller share first', mk([['largeoffice', 'pst80', 0.4], ['midriseapartment', 'pst80', 0.6]], '1A'), True),
+        ('three DOE rows, shares 0.3 / 0.2 / 0.5 in library order', mk([['hospital', 'new', 0.3], ['largeoffice', 'pst80', 0.2],
+                                                                       ['midriseapartment', 'pst80', 0.5]], '4A'), True),
+        ('rows given largest first, era in capitals, one archetype in two rows, proxy zone', mk(
+            [['warehouse', 'NEW', 0.125], ['smalloffice', 'Pre80', 0.5], ['warehouse', 'new', 0.375]], '1B'), True),
+        ('custom new type (small share) beside a DOE row', mk([['labtower', 'New', 0.25], ['midriseapartment', 'pst80', 0.75]],
+                                                             '5C', lab), True),
+        ('custom replacing a DOE archetype, equal shares', mk([['largeoffice', 'pst80', 0.5], ['secondaryschool', 'pre80', 0.5]],
+                                                             '1A', doe), True),
+        ('unknown building type in the second row', mk([['largeoffice', 'pst80', 0.6], ['parkinggarage', 'new', 0.4]], '1A'), False),
+        ('custom type asked for in an era for which no custom was given', mk(
+            [['midriseapartment', 'pst80', 0.5], ['labtower', 'pre80', 0.5]], '3C', lab), False),
+        ('DOE type written in capitals', mk([['LargeOffice', 'pst80', 0.5], ['hospital', 'new', 0.5]], '2A'), False),
+    ]
+    if quick:
+        mem = [m for k, m in enumerate(mem) if k != 1]
+    return mem
+
+
+def live_oracle(plain, m, ms, pristine):
+    """C07 on a generated live model, independent of anything kept in the process: BEM keys and shares = the stock;
+    BEM[k] carries the reference values of its own library cell (or custom); Sch[k] is - value for value - the
+    schedule set of the type and era of BEM[k] in the PRISTINE pickle (or the custom given)."""
+    import u2_util as W
+    import uwgutil as U
+    attrs = dict((a, v) for a, v in ms['attrs'])
+    agg = {}
+    for t, e, f in attrs['bld']:
+        agg[(t, e.lower())] = agg.get((t, e.lower()), 0.) + f
+    zi = REFZ.index(proxy(attrs['zone']))
+    cust = {}
+    if ms.get('customs'):
+        bv, sv = W.make_customs(plain, ms['customs'])
+        for b, s_ in zip(bv, sv):
+            cust[(b.bldtype, b.builtera)] = (b, s_)
+    got = {}
+    for b in m.BEM:
+        if (b.bldtype, b.builtera) in got:
+            return 'two simulated archetypes for %s %s' % (b.bldtype, b.builtera)
+        got[(b.bldtype, b.builtera)] = b.frac
+    if got != agg:
+        return 'simulated archetypes and shares %s, the stock asks for %s' % (sorted(got.items()), sorted(agg.items()))
+    if len(m.Sch) != len(m.BEM):
+        return '%d schedule sets for %d archetypes' % (len(m.Sch), len(m.BEM))
+    for k, (b, s_) in enumerate(zip(m.BEM, m.Sch)):
+        key = (b.bldtype, b.builtera)
+        if key in cust:
+            rb, rs = cust[key]
+        else:
+            i, j = REF_BLDTYPE.index(b.bldtype), ERAS.index(b.builtera)
+            rb, rs = pristine[0][i][j][zi], pristine[1][i][j][zi]
+        if (s_.bldtype, s_.builtera) != key or W.sch_values(s_) != W.sch_values(rs):
+            return ('BEM[%d] = %s %s (share %r) is paired with Sch[%d] = schedule set of %s %s (q_elec %r W/m2, cooling set '
+                    'point at noon %r C); the schedule set of %s %s has q_elec %r, set point %r - no row of the stock asks '
+                    'for that building' % (k, b.bldtype, b.builtera, b.frac, k, s_.bldtype, s_.builtera, s_.q_elec,
+                                           s_.cool[0][12], b.bldtype, b.builtera, rs.q_elec, rs.cool[0][12]))
+        have = (b.building.glazing_ratio, b.building.shgc, b.wall.albedo, b.roof.albedo, b.roof.vegcoverage,
+                b.building.floor_height, b.building.cop, b.building.heateff)
+        want = (rb.building.glazing_ratio, rb.building.shgc, rb.wall.albedo, rb.roof.albedo, rb.roof.vegcoverage,
+                rb.building.floor_height, rb.building.cop, rb.building.heateff)
+        if have != want:
+            return 'BEM[%d] = %s %s carries (glazing, shgc, wall / roof albedo, roof vegetation, floor height, cop, heating efficiency) = %r, ' \
+                   'its archetype has %r' % (k, b.bldtype, b.builtera, have, want)
+    return None
+
+
+def circumstance_start(chk):
+    """members + the fresh-interpreter scenarios (python and python -O) of circumstance_ties, started now: they are
+    independent processes and run while the other ties of the check use this one"""
+    import concurrent.futures
+    import u2_util as W
+    quick = chk.tier == 'quick'
+    work = chk.work()
+    mem = circumstance_members(quick)
+
+    def spec_for(ms, tag):
+        d = dict(ms)
+        d['out'] = [os.path.join(work, 'cc_' + tag), 'o.epw']
+        return d
+
+    def ops_ok(nm, write=True):
+        # (write_epw re-formats all 8760 rows - 0.4 s: only the members that are compared with a command-line file write)
+        return [['new', 'M', nm], ['gen', 'M'], ['obs', 'M', 'gen'], ['sim', 'M']] + ([['write', 'M']] if write else []) + \
+            [['rec', 'M', 'run']]
+    names = {lab_: k for k, (lab_, _, _) in enumerate(mem)}
+    kA, kB = names['custom replacing a DOE archetype, equal shares'], names['two DOE rows, smaller share first']
+    kL = names['custom new type (small share) beside a DOE row']
+    to_cli = [k for k, (_, _, ok) in enumerate(mem) if not ok or not quick or k in (kB, kA, kL)]
+    writes = lambda k: (not mem[k][2]) or k in to_cli       # noqa: E731  (unrealisable ones never get that far)
+    jobs = []
+    for k, (label, ms, ok) in enumerate(mem):
+        for opt in (False, True):
+            tag = 'm%d%s' % (k, '-O' if opt else '')
+            jobs.append((tag, {'ops': ops_ok(spec_for(ms, tag), writes(k))}, opt))
+    pool = concurrent.futures.ThreadPoolExecutor(max_workers=1)
+    return {'mem': mem, 'spec_for': spec_for, 'ops_ok': ops_ok, 'k': (kA, kB, kL), 'to_cli': to_cli, 'writes': writes,
+            'pool': pool, 'fut': pool.submit(W.children, jobs, work, 5 if quick else 8)}
+
+
+def circumstance_ties(chk, plain, early=None):
+    """The six circumstances of harness/generic.py applied to C07: the stock that is simulated (and the refusal of an
+    unrealisable one) must not depend on who looks at the model, the logging level, `python -O`, the route, other
+    models of the process, or what the caller does with the data he handed in."""
+    import concurrent.futures
+    import json
+    import generic as G
+    import u2_util as W
+    import uwgutil as U
+    quick = chk.tier == 'quick'
+    work = chk.work()
+    early = early or circumstance_start(chk)
+    mem, spec_for, ops_ok, to_cli, writes, pool, fut = (early[k_] for k_ in (
+        'mem', 'spec_for', 'ops_ok', 'to_cli', 'writes', 'pool', 'fut'))
+    kA, kB, kL = early['k']
+    nbad, n, br, shown = 0, 0, {}, {}
+
+    def bad(circ, what, case, observed, expected):
+        nonlocal nbad
+        nbad += 1
+        shown[circ] = shown.get(circ, 0) + 1
+        if shown[circ] <= 2 and nbad <= 8:
+            chk.violation('impl-violation', '%s [%s]' % (what, circ), case=case, observed=observed, expected=expected)
+
+    def count(circ):
+        nonlocal n
+        n += 1
+        br[circ] = br.get(circ, 0) + 1
+    pristine = plain.UWG.load_refDOE()
+    base = {}
+    cl0 = W.class_digest()
+    for k, (label, ms, ok) in enumerate(mem):
+        try:
+            case = {'stock': dict(ms['attrs'])['bld'], 'zone': dict(ms['attrs'])['zone'], 'custom_reference_buildings':
+                    ms.get('customs'), 'member': label}
+            # plain run, nobody looks (reference of this process)
+            doc = W.run_scenario({'ops': ops_ok(spec_for(ms, 'p%d' % k), writes(k))})
+            base[k] = doc
+            count('plain')
+            refused = doc['log'][1] != 'ok'
+            if ok and refused:
+                bad('plain', 'realisable stock', case, 'generate() %s' % doc['log'][1], 'every row has an archetype: simulated')
+                continue
+            if not ok and not refused:
+                bad('plain', 'unrealisable stock', case, 'generate() returned; simulated archetypes %s' % [
+                    b[:4] for b in doc['obs']['gen']['bem']], 'refused as a whole')
+            # (1) + (2) somebody looks, DEBUG logging
+            count('observers + DEBUG logging')
+            with G.debug_logging():
+                uwg = plain
+                m = W.new_from_spec(uwg, spec_for(ms, 'l%d' % k))
+                lst = m.bld                                     # (the caller's own list, see (6))
+                snap = G.snapshot(lst)
+                G.poke(m)
+                err = None
+                try:
+                    with quiet():
+                        m.generate()
+                except Exception as e:  # noqa: BLE001
+                    err = type(e).__name__
+                G.poke(m)
+                if not ok:
+                    err2 = None
+                    try:
+                        with quiet():
+                            m.generate()
+                    except Exception as e:  # noqa: BLE001
+                        err2 = type(e).__name__
+                    if err is None or err2 is None:
+                        bad('observers', 'unrealisable stock while somebody looks', case,
+                            'generate() %s, again after repr(): %s' % (err or 'returned', err2 or 'returned'), 'refused both times')
+                    continue
+                if err:
+                    bad('observers', 'realisable stock while somebody looks', case, 'generate() raised %s' % err, 'simulated')
+                    continue
+                msg = live_oracle(plain, m, ms, pristine)
+                if msg:
+                    bad('observers', 'the simulated stock after repr() / str() / ToString() of the generated model', case, msg,
+                        'looking at a model changes nothing: every archetype is driven by its own schedule set')
+                order = [b[:2] for b in W.bem_summary(m)]
+                if order != [b[:2] for b in doc['obs']['gen']['bem']]:
+                    bad('observers', 'order of the simulated archetypes after repr()', case,
+                        'BEM order %s; never looked at: %s' % (order, [b[:2] for b in doc['obs']['gen']['bem']]), 'the same')
+                undo = G.poke_during(m)
+                try:
+                    with quiet():
+                        m.simulate()
+                finally:
+                    undo()
+                G.poke(m)
+                if k == 0:
+                    with quiet():
+                        m.write_epw()
+            got = {'records': W.records_of(m), 'file': G.file_hash(m.new_epw_path) if k == 0 else doc['obs']['run']['file']}
+            w = G.where_differs(doc['obs']['run'], got)
+            if w:
+                r0, r1 = doc['obs']['run']['records'], got['records']
+                d = G.first_diff(r0, r1)
+                bad('observers', 'urban weather of a model that was looked at (after construction, after generate(), every 41st '
+                    'step, after simulate(); DEBUG logging)', case,
+                    'hourly records / written file differ from the same stock never looked at: first differing hour %s: canyon '
+                    'temperature %s vs %s' % (d and d[0], d and d[2] and d[2][0], d and d[1] and d[1][0]), 'bit-identical')
+            # (6) the list the caller handed in
+            if not G.plain_equal(snap, lst):
+                bad('caller-owned data', 'the stock list the caller handed in', case, G.where_differs(snap, lst), 'left as it was')
+        except Exception as e_:  # noqa: BLE001 - code under test raising where the unchanged tree does not
+            bad('plain / observers', 'a call raised', {'member': label, 'model': ms}, '%s: %s' % (type(e_).__name__, str(e_)[:200]), 'the calls return')
+    if W.class_digest() != cl0:
+        bad('other models', 'module- and class-level data of the package', {'operations': 'the runs above'},
+            'digest changed', 'unchanged by operations on models')
+    # ---- (5) who else lives in the process: absolute oracle on B after A was generated / simulated, and the reverse
+    for first, second in ((kA, kB), (kL, kB), (kB, kA)):
+        try:
+            count('other models')
+            msA, msB = mem[first][1], mem[second][1]
+            a = W.new_from_spec(plain, spec_for(dict(msA, attrs=msA['attrs'] + [['glzr', 0.9], ['albroof', 0.7], ['autosize', True]]), 'oa'))
+            b = W.new_from_spec(plain, spec_for(msB, 'ob'))
+            with quiet():
+                a.generate()
+                b.generate()
+            case = {'first_model (also glzr 0.9, albroof 0.7, autosize)': msA, 'second_model': msB,
+                    'sequence': 'first.generate(); second.generate(); first.simulate(); second.simulate()'}
+            msg = live_oracle(plain, b, msB, pristine)
+            cross = __import__('s2_util').identity_structure(b.BEM, others=a.BEM)
+            if msg or cross:
+                bad('other models', 'the stock of a model generated after another model', case,
+                    msg or 'the two models simulate one object: %s' % cross[:3],
+                    'archetypes and schedule sets of the second model come from the pristine library / its own customs')
+                continue
+            with quiet():
+                a.simulate()
+                b.simulate()
+            if W.records_of(b) != base[second]['obs']['run']['records']:
+                d = G.first_diff(base[second]['obs']['run']['records'], W.records_of(b))
+                bad('other models', 'urban weather of a model simulated beside another model', case,
+                    'hourly records differ from the same model alone (first differing hour %s)' % (d and d[0]), 'bit-identical')
+        except Exception as e_:  # noqa: BLE001 - code under test raising where the unchanged tree does not
+            bad('other models', 'a call raised', {'first': mem[first][0], 'second': mem[second][0]}, '%s: %s' % (type(e_).__name__, str(e_)[:200]), 'the calls return')
+    # ---- (6) + (4) dictionary / JSON / command line, the dictionary used twice
+    cli_jobs = []
+    for k, (label, ms, ok) in enumerate(mem):
+        if k not in to_cli:
+            continue
+        src = W.new_from_spec(plain, spec_for(ms, 'd%d' % k))
+        d = src.to_dict(include_refDOE=True)
+        text = json.dumps(d)
+        snap = G.snapshot(d)
+        case = {'stock': dict(ms['attrs'])['bld'], 'zone': dict(ms['attrs'])['zone'], 'custom_reference_buildings':
+                ms.get('customs'), 'member': label, 'route': 'to_dict(include_refDOE=True) of a keyword-built model, the '
+                'SAME dictionary object given to from_dict twice'}
+        count('caller-owned data')
+        outs = []
+        for use in (1, 2):
+            try:
+                with quiet():
+                    m2 = plain.UWG.from_dict(d, epw_path=EPW, new_epw_dir=work, new_epw_name='ccd.epw')
+                    m2.generate()
+                outs.append(live_oracle(plain, m2, ms, pristine) or 'ok')
+            except Exception as e:  # noqa: BLE001
+                outs.append('raised ' + type(e).__name__)
+            w = G.where_differs(snap, d)
+            if w:
+                bad('caller-owned data', 'from_dict + generate leave the caller\'s dictionary as it was', case,
+                    'after use %d: %s' % (use, w), 'unchanged')
+                break
+        want = 'ok' if ok else 'raised'
+        if any(not o.startswith(want) for o in outs):
+            bad('caller-owned data', 'a stock described by a dictionary that is used twice', case,
+                'first use: %s; second use: %s' % tuple((outs + ['-'])[:2]),
+                'both uses: %s' % ('the whole stock simulated' if ok else 'refused'))
+        od = os.path.join(work, 'cc_cli%d' % k)
+        os.makedirs(od, exist_ok=True)
+        jp = os.path.join(od, 'model.json')
+        with open(jp, 'w') as f:
+            f.write(text)
+        for opt in ((False, True) if not ok else (False,)):
+            cli_jobs.append((k, opt, od, ['simulate', 'model', jp, EPW, '--new-epw-dir', od, '--new-epw-name',
+                                          'o%d.epw' % opt]))
+    with concurrent.futures.ThreadPoolExecutor(max_workers=6) as ex:
+        cli_out = list(ex.map(lambda j: G.cli(j[3], optimize=j[1]), cli_jobs))
+    for (k, opt, od, args), (rc, so, se) in zip(cli_jobs, cli_out):
+        label, ms, ok = mem[k]
+        count('command line' + (' -O' if opt else ''))
+        fp = os.path.join(od, 'o%d.epw' % opt)
+        case = {'stock': dict(ms['attrs'])['bld'], 'zone': dict(ms['attrs'])['zone'], 'custom_reference_buildings':
+                ms.get('customs'), 'member': label,
+                'command': 'python %s-m uwg simulate model <JSON text of the model> <Singapore epw>' % ('-O ' if opt else '')}
+        if ok:
+            if rc != 0 or not os.path.exists(fp) or G.file_hash(fp) != base[k]['obs']['run']['file']:
+                bad('command line', 'the stock simulated through the command line', case,
+                    'exit status %s, weather file %s' % (rc, 'differs from the library route' if os.path.exists(fp) else 'missing'),
+                    'exit status 0 and the file the library calls write')
+        elif rc == 0 or os.path.exists(fp):
+            bad('command line', 'unrealisable stock through the command line', case,
+                'exit status %s, weather file written: %s' % (rc, os.path.exists(fp)),
+                'refused: non-zero exit status and no weather file')
+    # ---- (3) python -O and plain python in fresh processes: the same verdict and the same simulated stock
+    outs = fut.result()
+    pool.shutdown()
+    for k, (label, ms, ok) in enumerate(mem):
+        for opt in (False, True):
+            tag = 'm%d%s' % (k, '-O' if opt else '')
+            mode = 'python -O' if opt else 'python'
+            count(mode + ' (fresh process)')
+            rc, doc, err = outs[tag]
+            case = {'stock': dict(ms['attrs'])['bld'], 'zone': dict(ms['attrs'])['zone'], 'custom_reference_buildings':
+                    ms.get('customs'), 'member': label, 'interpreter': mode + ', fresh process'}
+            if doc is None:
+                bad(mode, 'scenario in a fresh interpreter', case, 'did not finish: rc=%s %s' % (rc, err[-200:]), 'runs')
+                continue
+            if not ok:
+                if doc['log'][1] == 'ok':
+                    bad(mode, 'unrealisable stock', case,
+                        'generate() returned under %s; simulated archetypes (type, era, zone, share): %s - shares sum to %r; '
+                        'simulate() %s, write_epw() %s' % (mode, [b[:4] for b in doc['obs']['gen']['bem']],
+                                                          sum(float(b[3]) for b in doc['obs']['gen']['bem']),
+                                                          doc['log'][3], doc['log'][4]),
+                        'the stock is refused as a whole (it is in a plain interpreter), never simulated partially')
+                continue
+            if doc['log'] != base[k]['log']:
+                bad(mode, 'realisable stock', case, 'calls: %s' % doc['log'], 'calls: %s' % base[k]['log'])
+                continue
+            w = W.diff_docs(base[k], doc)
+            if w:
+                bad(mode, 'the simulated stock / urban weather in a fresh %s process' % mode, case, w,
+                    'the observables of the plain in-process run: archetypes, schedule sets, state digest, records, file')
+            if doc['class_level_changes']:
+                bad(mode, 'module- and class-level data of the package', case,
+                    'changed at operation(s) %s' % doc['class_level_changes'][:3], 'unchanged by operations on a model')
+    chk.direct('circumstances(observers, DEBUG logging, python -O, command line, other models, caller-owned data)', n, n,
+               'members: %s. For each: (plain) generate; simulate; write_epw judged by the C07 oracle evaluated against the '
+               'PRISTINE pickle (keys and shares = the stock, values of BEM[k] = its archetype, Sch[k] = value for value '
+               'the schedule set of the type and era of BEM[k]); (1, 2) the same under DEBUG logging while repr / str / '
+               'ToString of the model and of every reachable uwg object is taken after construction, after generate(), '
+               'every 41st step and after simulate(): same oracle after the look, same BEM order, bit-identical records '
+               'and file; unrealisable stocks refused before and after a look; (3) the same scenario in fresh `python` and '
+               '`python -O` processes: same calls returning / raising, same archetypes, schedule sets, state digest, records '
+               'and file as the plain run - an unrealisable stock is refused under -O too; (4) `python -m uwg simulate model` '
+               'on the JSON text: file of the library route, unrealisable stocks end with a non-zero status and no file, '
+               'also under -O; (5) a model generated after / simulated beside ANOTHER model (custom replacing one of its DOE '
+               'archetypes with own schedules, custom new type; overrides and autosize on the other model): absolute oracle, '
+               'no object in common, records of the model alone; class-level data digest constant; (6) the stock list handed '
+               'in is left as it was; to_dict(include_refDOE) given to from_dict TWICE as one object: dictionary unchanged, '
+               'both uses simulate the whole stock (or both refuse)' % '; '.join(m_[0] for m_ in mem),
+               mismatches=nbad, branches=br)
+
+
 def build_cases(chk, rl, focus):
     rng = chk.rng
     quick = chk.tier == 'quick'
@@ -1550,6 +1910,7 @@ def replay(chk, path, focus='C07'):
 
 
 def run(chk, focus='C07', module=MODULE, theorems=THEOREMS):
+    early = circumstance_start(chk) if focus == 'C07' else None
     chk.proof(module, theorems)
     if chk.tier == 'thorough':
         chk.leanchecker([module])
@@ -1564,6 +1925,7 @@ def run(chk, focus='C07', module=MODULE, theorems=THEOREMS):
         split_stock_runs(chk, ses.plain)
         identity_ties(chk, ses.plain)
         era_schedule_runs(chk, ses.plain)
+        circumstance_ties(chk, ses.plain, early)
     report(chk, ses, focus)
     chk.assumptions.append(
         '_compute_BEM/_customize_reference_data are exercised through fracexec (exact rationals) '
